@@ -83,6 +83,7 @@ def plan(tier, seed):
     for c in range(8):
         shards.append(("hist", tier, mags[0], c, 8))
     shards.append(("callers", tier, mags[0]))
+    shards.append(("sizes", tier, mags[0]))
     for gi in ((3, 12) if tier == "quick" else (3, 12, 21, 30)):
         shards.append(("rgfit", tier, gi))
     k = seed % len(shards)
@@ -313,14 +314,17 @@ def check_config(sh, mods, pars, sc, fc, om, case, full=True):
     ok = True
     # ---- C route
     C = tr.Ctransform(pars)
-    cx = C.sf2xyz(sc, fc)
+    n = len(sc)
+    # the caller's output arrays arrive filled with NaN: a row that is not written stays visible
+    cx = C.sf2xyz(sc, fc, out=np.full((n, 3), np.nan))
     ok &= cmp(sh, "Ctransform.sf2xyz", case, cx.T, xyz, 1e-8)
     t = (pars["t_x"], pars["t_y"], pars["t_z"])
-    gv = C.xyz2gv(cx, om, *t)
+    gv = C.xyz2gv(cx, om, *t, out=np.full((n, 3), np.nan))
     ok &= cmp(sh, "Ctransform.xyz2gv", case, gv.T, g, 1e-12)
-    gv2 = C.sf2gv(sc, fc, om, *t)
+    gv2 = C.sf2gv(sc, fc, om, *t, out=np.full((n, 3), np.nan))
     ok &= cmp(sh, "Ctransform.sf2gv", case, gv2.T, g, 1e-12)
-    geo = C.xyz2geometry(cx, om, *t)
+    ok &= cmp(sh, "Ctransform.sf2gv[out=None]", case, C.sf2gv(sc, fc, om, *t).T, g, 1e-12)
+    geo = C.xyz2geometry(cx, om, *t, out=np.full((n, 6), np.nan))
     ok &= cmp(sh, "Ctransform.xyz2geometry:tth", case, geo[:, 0], tth, 1e-9)
     ok &= cmp(sh, "Ctransform.xyz2geometry:eta", case, geo[:, 1], eta, 1e-9, circle=True)
     ok &= cmp(sh, "Ctransform.xyz2geometry:ds", case, geo[:, 2], ds, 1e-12)
@@ -379,7 +383,15 @@ def check_config(sh, mods, pars, sc, fc, om, case, full=True):
     ok &= cmp(sh, "point_by_point.compute_gve", case, ng, g, 1e-12)
     nk = pbp.compute_k_vectors(tth, eta, pars["wavelength"])
     ok &= cmp(sh, "point_by_point.compute_k_vectors", case, nk, tr.compute_k_vectors(tth, eta, pars["wavelength"]), 1e-13)
+    nk0, ome0 = nk.copy(), ome.copy()
     ok &= cmp(sh, "point_by_point.compute_g_from_k", case, pbp.compute_g_from_k(nk, ome, pars["wedge"], pars["chi"]), g, 1e-12)
+    # "g-vectors with cached k-vectors": the k array is the caller's and is used again (next omega) - it must come back untouched
+    ok &= cmp(sh, "point_by_point.compute_g_from_k:caller's-k-changed", case, nk, nk0, 0.0)
+    ok &= cmp(sh, "point_by_point.compute_g_from_k:caller's-omega-changed", case, ome, ome0, 0.0)
+    ok &= cmp(sh, "point_by_point.compute_g_from_k[second call, omega+0.125]", case,
+              pbp.compute_g_from_k(nk, ome + 0.125, pars["wedge"], pars["chi"]),
+              tr.compute_g_from_k(nk0, ome0 + 0.125, wedge=pars["wedge"], chi=pars["chi"]), 1e-12)
+    ok &= cmp(sh, "point_by_point.compute_tth_eta_from_xyz:caller's-xyz-changed", case, nx, xyz, 1e-8)
     if full:
         # xpos: compute_gve shortens the distance per peak; equals the reference with that distance
         xpos = np.linspace(-300.0, 300.0, n)
@@ -403,6 +415,38 @@ def check_config(sh, mods, pars, sc, fc, om, case, full=True):
         g3 = tr.compute_g_vectors(t3, e3, ome, pars["wavelength"], wedge=pars["wedge"], chi=pars["chi"])
         ok &= cmp(sh, "point_by_point.get_local_gv", case, gvl.T, g3, 1e-12)
     return bool(ok)
+
+
+SIZES_Q = (1, 2, 3, 15, 16, 17, 31, 32, 33, 63, 64, 65, 127, 128, 129, 255, 256, 257, 511, 512, 513, 1023, 1024, 1025)
+SIZES_T = SIZES_Q + (2047, 2048, 2049, 4095, 4096, 4097, 8191, 8192, 8193, 65535, 65536, 65537)
+
+
+def size_table(n):
+    i = np.arange(n, dtype=float)
+    sc = 1024.0 + 900.0 * np.sin(0.37 * i + 0.2)
+    fc = 1024.0 + 900.0 * np.cos(0.91 * i - 0.4)
+    om = np.mod(i * 7.3, 540.0) - 180.0
+    return sc, fc, om
+
+
+def _run_sizes(desc):
+    """the number of peaks in one call (the compiled loops run in parallel chunks; tables are any length): every length around the
+    powers of two, three configurations (everything on, wedge only, nothing), every route of check_config"""
+    _, tier, mg = desc
+    mods = _mods()
+    sh = Shard()
+    cfgs = list(configs(mg))
+    picks = [len(cfgs) - 1, max(i for i, (p, non) in enumerate(cfgs) if p["wedge"] != 0 and p["chi"] == 0 and non == 1), 0]
+    for n in (SIZES_Q if tier == "quick" else SIZES_T):
+        sc, fc, om = size_table(n)
+        for ci in picks:
+            pars = cfgs[ci][0]
+            case = {"kind": "sizes", "mag": mg, "config": ci, "pars": pars, "npeaks": n}
+            check_config(sh, mods, pars, sc, fc, om, case, full=True)
+            sh.evaluations += 1
+            sh.nontrivial += 1
+        sh.outcomes.add(("npeaks", n))
+    return sh
 
 
 def _mods():
@@ -486,6 +530,8 @@ def run_shard(desc):
         return _run_hist(desc)
     if desc[0] == "callers":
         return _run_callers(desc)
+    if desc[0] == "sizes":
+        return _run_sizes(desc)
     _, tier, mg, c, nch = desc
     mods = _mods()
     sh = Shard()
@@ -553,6 +599,6 @@ def replay(case):
     if case.get("kind") == "sched":
         r = _run_sched(("sched", "quick", case["mag"], 0, 1))
         return (not r.violations), {"violations": r.violations[:3]}
-    sc, fc, om = peak_table(case.get("tier", "quick"))
+    sc, fc, om = size_table(case["npeaks"]) if case.get("kind") == "sizes" else peak_table(case.get("tier", "quick"))
     check_config(sh, _mods(), case["pars"], sc, fc, om, case, full=True)
     return (not sh.violations), {"violations": sh.violations[:4]}
